@@ -122,6 +122,7 @@ func (h *histRun) edit(i int, op *opSpec) error {
 		h.w.wipeCache()
 		h.w.ctx.St.Count("module_cache_wiped", 1)
 		return nil
+	case "delete-source", "restore-deleted-source":
 	case "break-source", "restore-source", "edit-source", "touch", "rewrite-same", "dir-add", "dir-remove", "dir-rename", "dir-swap", "dir-move", "dir-lift", "dir-sink", "subdir-rename", "delete-generated", "scribble-generated", "nop":
 	default:
 		h.codeEdited = true
